@@ -19,6 +19,11 @@ CHECKS.update({
    text='For every accepted string of the C01 sets and the shape product: recomposed text equals the input with IPv6 literals in eight-group lowercase form, charsRequired and charsWritten are exact, the text re-parses to a uriEqualsUri-equal, component-identical URI, and the owned copy recomposes identically; both character types.',
    ref='DESIGN.md section 3, C04', note=TRUST),
 })
+CHECKS.update({
+ 'C06': dict(cat='exploration', tech='bounded-exhaustive enumeration of (base, reference, option, manager, char type) with a reference implementation of RFC 3986 5.2.2-5.2.4 as oracle; arguments held in read-only memory',
+   text='The full product of ~150 bases and all references built from 4 schemes x 4 authorities x every dot/empty/colon path-token sequence up to length n x queries x fragments is resolved by the library (strict and identical-scheme-compat, default and ledger manager, char and wchar_t) and compared component for component and as text with a literal implementation of RFC 3986 section 5.2; base and reference are write-protected during the call.',
+   ref='DESIGN.md section 3, C06', note=TRUST),
+})
 NOT_YET = {}
 def main():
     props = [json.loads(l) for l in open(os.path.join(VERIF, 'properties.jsonl'))]
